@@ -7,6 +7,7 @@ histories on real datasets, mutates what was handed out in every way it can (set
 clear, nested, delete) and compares every later access, by every path, with the pristine snapshot
 = the model's prediction."""
 import copy
+import common
 import json
 import random
 import shutil
@@ -96,6 +97,7 @@ def access(rng, ds, n, keys):
 
 
 def one_history(rng, mode, tmpdirs):
+    common.gc_point()
     n = rng.randint(0, 5)
     examples = [make_example(rng) for _ in range(n)]
     keyed = rng.random() < 0.5 and mode != 'wu'
